@@ -12,6 +12,7 @@ SLOT = 5000000
 
 class C15(PropBase):
     id = 'C15'
+    address_change = 0.15
     rx_only_gaps = 0.1
     lean_modules = ['Isotp.Props.C15']
     theorems = []
